@@ -233,7 +233,7 @@ fn judge(c: &Case, o: &Outcome, client: &str) -> Vec<(String, String)> {
 
 async fn run_ws(c: &Case) -> (Outcome, Vec<(String, String)>) {
 	let mut r = Rng::new(c.seed);
-	let (client, mut srv) = client(ClientCfg { string_ids: c.string_ids, ..Default::default() });
+	let (client, mut srv) = client(ClientCfg { string_ids: c.string_ids, build_path: ((c.seed >> 23) % 4) as u8, ..Default::default() });
 	let mut extra_violations = Vec::new();
 	// other operations in flight
 	let mut others = Vec::new();
